@@ -37,7 +37,7 @@ def all_id_values(x, acc):
 
 
 ODD_NAMES = ["src%d-%d.feature", "login[%d]-%d.feature", "a*b%d-%d.feature", "sp ace %d %d.feature", "\u00fcn\u00ef%d-%d.feature", "q?%d-%d.feature", "{%d,%d}.feature", "%d-%d", "_-%d-%d.feature",
-             "x%d'y\"%d.feature", "back\\slash%d\\%d.feature", "per%%cent%d-%d.feature", "a&b;c%d-%d.feature", "tab\t%d-%d.feature", "UPPER%d-%d.FEATURE", "dot.%d.%d.", "#hash%d-%d.feature", "notes%d-%d.md", "login%d-%d.feature.md", "x%d-%d.markdown", "README%d-%d.MD", "y%d-%d.feature.txt", "z%d-%d.json"]
+             "x%d'y\"%d.feature", "back\\slash%d\\%d.feature", "per%%cent%d-%d.feature", "a&b;c%d-%d.feature", "tab\t%d-%d.feature", "UPPER%d-%d.FEATURE", "dot.%d.%d.", "#hash%d-%d.feature", "login%d-%d.feature:2", "checkout%d-%d.feature:12:34", "sign%%20up%d-%d.feature", "100%%25-%d-%d.feature", "a%%2Fb%d-%d.feature", "q%d-%d.feature?x=1", "h%d-%d.feature#L3", "notes%d-%d.md", "login%d-%d.feature.md", "x%d-%d.markdown", "README%d-%d.MD", "y%d-%d.feature.txt", "z%d-%d.json"]
 
 
 def expected_for(uri, text, opts):
